@@ -381,6 +381,19 @@ J_dur_op(e) ==
                     \o TypeDur(p, TRUE))
               ELSE CmpDur(p, D3MulInt(x.r3, e.a.n)) \o TypeDur(p, TRUE))
        [] o \in {"mul_float", "rmul_float"} -> R(lab, CmpDur(p, D3MulRatio(x.r3, e.a.num, e.a.den)) \o TypeDur(p, TRUE))
+       \* any float factor f = +-fa / 2^fe (exact, as_integer_ratio): the product is the exact rational rounded half to even,
+       \* computed in arbitrary precision
+       [] o \in {"mul_floatx", "rmul_floatx"} ->
+            LET mag == D3Abs(x.r3)
+                secs == BNAdd(BNMulSmall(BNOfInt(mag[1]), 86400), BNOfInt(mag[2]))
+                us == BNAdd(BNMulSmall(BNMulSmall(secs, 1000), 1000), BNOfInt(mag[3]))
+                prod == BNShiftRound(BNMul(us, BNOfDigits(e.a.fa)), e.a.fe, FALSE)
+                d1 == BNDivSmall(prod, 1000)   d2 == BNDivSmall(d1.q, 1000)   d3 == BNDivSmall(d2.q, 86400)
+                days == BNToInt(d3.q)
+                res == <<days, d3.r, d2.r * 1000 + d1.r>>
+                neg == (D3Sign(x.r3) < 0) # e.a.fneg
+            IN IF days < 0 \/ days > 900000000 THEN R(lab \o <<"out-of-range">>, <<>>)
+               ELSE R(lab \o <<"float-factor">>, CmpDur(p, IF neg THEN D3Neg(res) ELSE res) \o TypeDur(p, TRUE))
        [] o = "truediv_int" -> R(lab, CmpDur(p, D3DivRHE(x.r3, e.a.n)) \o TypeDur(p, TRUE))
        [] o = "truediv_float" -> R(lab, CmpDur(p, D3DivRatio(x.r3, e.a.num, e.a.den)) \o TypeDur(p, TRUE))
        [] o = "floordiv_int" -> R(lab, CmpDur(p, D3FloorDivInt(x.r3, e.a.n)) \o TypeDur(p, TRUE))
